@@ -485,6 +485,19 @@ def r09_7(rep, prog):
             elif reads_flags:
                 sites.append((f, cf, b, n, 'expr'))
     if len(sites) != 3:
+        # a decision taken under the decoder's FEC flag that no longer consults the per-frame flags is a disagreement, not a vanished anchor
+        for fname in ('silk_Decode',):
+            f = prog.fn(fname)
+            cf = cfgm.CFG(f)
+            for b, i, n in cf.find(lambda n: n[0] == 'assign' and sx.kind(n[1]) == 'local' and n[1][1] == 'condCoding'):
+                g = cfgm.guards_of(cf, b)
+                fec = any(c is not None and pol and any(sx.kind(y) == 'param' and y[2] == 'lostFlag' for y in sx.walk(c)) and any(sx.int_val(y) == 2 for y in sx.walk(c)) for c, pol, gb in g[:2])
+                reads = any(sx.kind(x) == 'field' and x[3] == 'LBRR_flags' for x in sx.walk(n[2])) or any(c is not None and any(sx.kind(x) == 'field' and x[3] == 'LBRR_flags' for x in sx.walk(c)) for c, pol, gb in g[:1])
+                if fec and not reads and sx.int_val(sx.strip(n[2])) is None:
+                    rep.violated('R09.7', '%s:%s decides the coding mode of an LBRR frame from the LBRR flag of the previous frame of the same channel' % (prog.config, fname), '%s:%s' % (f.file, sx.line(n)),
+                                 'under the FEC flag the decision is `%s`, which does not read the per-frame LBRR_flags[]: an LBRR frame that follows a frame without LBRR data is decoded conditionally although it was coded independently' % sx.show(n)[:70],
+                                 key='silk_Decode:fec-condcoding')
+                    return
         rep.unresolved('R09.7', 'expected 3 LBRR conditional-coding decisions (encoder, decoder skip loop, decoder FEC path), found %d' % len(sites))
         return
     for f, cf, b, n, kind_ in sites:
